@@ -307,3 +307,23 @@ IFS = ['Ifs_read', 'Ifs_gcount', 'Ifs_tellg', 'Ifs_seekg', 'Ifs_seekg_end', 'Ifs
 IFS_TRUST = 'std::ifstream on a regular file: assumed model contracts/ifsmodel.h (failbit semantics of read past the end, tellg = -1 while failed, seekg past the end allowed)'
 for fn_, rc_ in (('ReadImplementation', EXC2), ('ReadPartial', NOEXC), ('Length', NOEXC), ('Position', NOEXC), ('Seek', NOEXC), ('SeekForward', EXC2), ('SeekBackward', EXC2)):
     G('filer.' + fn_, ['C05', 'C12', 'C13'], 'filer', 'FileReader_' + fn_, replace=IFS + ['FileReader_Position'], reach=rc_, trusted=[IFS_TRUST], replay={'driver': 'filer_replay.cpp', 'case': fn_})
+
+# ---- U-VOLR (C05, C02, C13, C17)
+KF = ['Fr_Read', 'Fr_Length', 'Fr_Position', 'Fr_Seek', 'Fr_SeekForward', 'Fr_Slice2', 'Fr_Slice1']
+KF_TRUST = ['K_F (contracts/kf.h): use-mode, content-free projection of the FileReader contracts proved in unit filer over the ifstream model; FileSliceReader construction by unit slice',
+            'std::vector<IndexEntry>::resize, VolFile::ReadStringTable (vector<string> construction), ExtractFileUncompressed/ExtractFileLzh: assumed abstract contracts in contracts/volr.contracts']
+VR = KF + ['VolFile_VerifyIndexInBounds', 'vec_VolIndexEntry_resize', 'VolFile_ReadStringTable', 'VolFile_ExtractFileUncompressed', 'VolFile_ExtractFileLzh']
+def volr(fn, props, reach=EXC2, replace=(), **kw):
+    G('volr.' + fn, props, 'volr', 'VolFile_' + fn, replace=VR + list(replace), reach=reach, trusted=KF_TRUST, replay={'driver': 'volr_replay.cpp', 'case': fn}, **kw)
+volr('GetName', ['C05', 'C17']); volr('GetCompressionCode', ['C05', 'C17', 'C02']); volr('GetSize', ['C05', 'C17', 'C02'])
+volr('GetSectionHeader', ['C05', 'C13']); volr('OpenStream', ['C05', 'C13', 'C02'], replace=['VolFile_GetSectionHeader'])
+volr('ExtractFile', ['C05', 'C17']); volr('ReadTag', ['C05', 'C02']); volr('CountValidEntries', ['C05', 'C02'], reach=NOEXC)
+volr('ReadVolHeader', ['C05', 'C02'], replace=['VolFile_ReadTag', 'VolFile_CountValidEntries'], timeout=600, flags=['--object-bits', '12'])
+claim('C05', 'FileReader is proved over the assumed std::ifstream model: a read that does not fit throws and leaves the reader usable at the old position (K_F); on top of K_F, opening ARBITRARY bytes as a VOL either fails or establishes the archive invariant (counted entries have an index record and a name; index storage never overrun), every per-member call refuses out-of-range indices and keeps the invariant on both exits, OpenStream returns exactly the recorded extent and refuses extents outside the file; the WAV chunk walk (FindChunk) is memory safe and terminates on arbitrary bytes; CLM header checks proved.',
+      'ASSUMED: ifstream model; ReadStringTable (vector<string> construction), ExtractFile* bodies, vector resize as abstract contracts. NOT decided: ClmFile::ReadHeader/OpenStream/ExtractFile, ReadAllWaveHeaders, ExtractAllFiles, resource exhaustion.')
+claim('C17', 'GetIndex proved (cvc5, any member count) to throw iff no member matches and otherwise to return the least matching index; Contains proved equivalent to "some member matches", hence Contains(n) <=> GetIndex(n) does not throw, and GetIndex(GetName(i)) == i for duplicate-free archives; VerifyIndexInBounds and every VolFile per-member call refuse out-of-range indices.',
+      'PathsAreEqual is an uninterpreted deterministic relation: its case and "./" insensitivity, directory listings, regex/extension matching, archive discovery and ResourceManager precedence are NOT decided (std::filesystem / std::regex / unique_ptr vectors; no extractable repository code).')
+NOT_DECIDED.update({
+ 'C05': ['ClmFile reader side, ReadAllWaveHeaders, ReadStringTable content, ExtractFile bodies, resource exhaustion'],
+ 'C17': ['PathsAreEqual case/"./" folding (std::filesystem)', 'ResourceManager::GetResourceStream precedence, listings, regex and extension matching, archive discovery'],
+})
